@@ -28,13 +28,13 @@ CLAIMS = {
             "(sequential): Remote::poll polls a task body only while it holds the handle lock and never starts a cancelled "
             "one; SubscriberThreads delivers under the cell lock.  Known finding: throttle.", "§4 C02, §6",
             "the racing emitter thread as such (lock-level interleavings) — only the sequential lock-scope obligations are "
-            "decided; the schedule() async block is trusted."),
+            "decided; the schedule() async block is decided under rule R12 (one async block read sequentially)."),
     "C03": ("Every single-input operator's observer methods and every basic source proved (Verus, unbounded) equal to one "
             "step of its documented list semantics on a recording downstream, incl. 'no aggregate with an error'; builders "
             "proved to be the documented compositions; lemma take_items.  Bounded (Kani, <= 3 items then any terminal): "
             "from_iter/repeat, all, ignore_elements, count/sum/min/max/average, element_at/first_or/last_or, reduce (thorough "
             "tier: 6 items).", "§4 C03",
-            "take_last::complete (drain loop) and collect::next (Extend) are trusted; "
+            "collect::next (Extend) is trusted; "
             "the Kani units are bounded and listed under bounded_checks, not counted as proved."),
     "C04": ("Verus step contracts for merge, zip, combine_latest (both macro instantiations), with_latest_from, sample, "
             "take_until, skip_until, buffer(notifier) for arbitrary pre-states (unbounded queues); lemma "
@@ -124,8 +124,9 @@ CLAIMS = {
             "(runs once, arguments gone), FutureTask::poll, RepeatTask::poll (bounded), Remote::poll (a cancelled handle never "
             "starts the body; the body is polled only while the handle lock is held, so unsubscribe() cannot return while it "
             "runs).", "§4 C19",
-            "the Ready outcome of Remote::poll (store of the result) and the schedule() async block (delay awaited before the "
-            "task) are TRUSTED (CBMC does not finish, notes/not-feasible); executor behaviour is assumed."),
+            "the Ready outcome of Remote::poll (store of the result: CBMC does not finish) is TRUSTED; the schedule() async block "
+            "is decided under the sequential reading of rule R12 (Verus: the delay's timer is awaited before the task, the "
+            "future is handed to the spawner); executor behaviour is assumed."),
 }
 
 NOT_APPLICABLE = {
